@@ -301,3 +301,89 @@ Definition classify (cs : case) : N :=
              + 504 * (if up_replace u then 1 else 0)
              + 1008 * (if ob_status ob <? 300 then 0 else if ob_status ob <? 400 then 1 else if ob_status ob <? 500 then 2 else 3)
        end.
+
+(* ------------------------------------------------------------------------------------------ *)
+(* positional constructors for case literals (keeps the shards short) *)
+Definition mk_sess (slug email user access rtok : str) (rdl ldl vdl : Z) (grace : option Z) (groups : list str) (ups : str)
+  : ProxyCore.session :=
+  {| ProxyCore.s_slug := slug; ProxyCore.s_email := email; ProxyCore.s_user := user; ProxyCore.s_access := access;
+     ProxyCore.s_refresh_tok := rtok; ProxyCore.s_refresh_dl := rdl; ProxyCore.s_lifetime_dl := ldl; ProxyCore.s_valid_dl := vdl;
+     ProxyCore.s_grace := grace; ProxyCore.s_groups := groups; ProxyCore.s_upstream := ups |}.
+Definition St := ProxyCore.St.
+Definition Transport := ProxyCore.Transport.
+Definition mk_auth_ans (rf : ProxyCore.http_ans) (rb : option (str * Z)) (va pr : ProxyCore.http_ans) (pb : option (list str))
+  : ProxyCore.answers :=
+  {| ProxyCore.a_refresh := rf; ProxyCore.a_refresh_body := rb; ProxyCore.a_validate := va;
+     ProxyCore.a_profile := pr; ProxyCore.a_profile_body := pb |}.
+Definition mk_backend_ans (n1xx : nat) (status : N) (lines : list (str * str)) : RespHeaders.upstream :=
+  {| RespHeaders.u_n1xx := n1xx; RespHeaders.u_status := status; RespHeaders.u_lines := lines;
+     RespHeaders.u_announced := []; RespHeaders.u_trailers := [] |}.
+Definition mk_ans (au : ProxyCore.answers) (rd : ProxyCore.http_ans) (rb : option (str * str * str * Z)) (b : RespHeaders.upstream)
+  : answers := {| an_auth := au; an_redeem := rd; an_redeem_body := rb; an_backend := b |}.
+Definition Simple := Hostmux.Simple.
+Definition Rewrite := Hostmux.Rewrite.
+Definition mk_hm (r : Hostmux.route) (addrs doms groups : list str) (slug : str) (skip : list str) (preserve : bool) : Hostmux.upstream :=
+  {| Hostmux.u_route := r; Hostmux.u_policy := {| p_addresses := addrs; p_domains := doms; p_groups := groups |};
+     Hostmux.u_slug := slug; Hostmux.u_skip := skip; Hostmux.u_preserve := preserve |}.
+Definition mk_up (hm : Hostmux.upstream) (ov inj : list (str * str)) (replace : bool) (hmac : option str) (skip_sign : bool) : iupstream :=
+  {| up_hm := hm; up_overrides := ov; up_inject := inj; up_replace := replace; up_hmac := hmac; up_skip_sign := skip_sign |}.
+Definition mk_dep (ups : list iupstream) (slug : str) (L V G : Z) (secure : bool) (cn : str) (signer : option N) (base : str) : deployment :=
+  {| dp_ups := ups; dp_slug := slug; dp_L := L; dp_V := V; dp_G := G; dp_secure := secure; dp_httponly := true;
+     dp_cookie_name := cn; dp_cookie_domain := []; dp_signer := signer; dp_auth_base := base |}.
+Definition WEnc := Callback.WEnc.
+Definition WJunk := Callback.WJunk.
+Definition Seal := Callback.Seal.
+Definition PFlow := Callback.PFlow.
+Definition mk_flow (sid : N) (redirect : str) : Callback.flow := {| Callback.f_sid := sid; Callback.f_redirect := redirect |}.
+Definition mk_req (host method path rawq : str) (client : list (str * str)) (body : str) (chunked : bool) (ip : str)
+    (form_ok : bool) (err code : str) (state : Callback.wire) (csrf : option Callback.wire) : request :=
+  {| rq_host := host; rq_method := method; rq_path := path; rq_rawquery := rawq; rq_client := client; rq_body := body;
+     rq_chunked := chunked; rq_ip := ip; cb_form_ok := form_ok; cb_error := err; cb_code := code; cb_state := state; cb_csrf := csrf |}.
+Definition VStr := RespHeaders.VStr.
+Definition mk_ck (name : str) (empty : bool) (path : str) (dom : option str) (httponly secure expires : bool) : RespHeaders.hval :=
+  RespHeaders.VCookie {| RespHeaders.ck_name := name; RespHeaders.ck_empty := empty; RespHeaders.ck_path := path;
+                         RespHeaders.ck_domain := dom; RespHeaders.ck_httponly := httponly; RespHeaders.ck_secure := secure;
+                         RespHeaders.ck_expires := expires |}.
+Definition CNone := ProxyCore.CNone.
+Definition CCleared := ProxyCore.CCleared.
+Definition CSaved := ProxyCore.CSaved.
+Definition mk_bobs (target host method path rawq body : str) (h : Signer.headers) (cks : list (str * str))
+    (rsa : option bool) (kid : bool) (hmac : N) : obs_backend :=
+  {| ob_target := target; ob_host := host; ob_method := method; ob_path := path; ob_rawquery := rawq; ob_body := body;
+     ob_headers := h; ob_cookies := cks; ob_rsa := rsa; ob_kid := kid; ob_hmac := hmac |}.
+Definition mk_obs (seen : list obs_backend) (presented : option str) (responded : bool) (status : N)
+    (h : RespHeaders.hdr str) (set : list RespHeaders.hval) (sess : ProxyCore.cookie_effect) (calls : list call) : obs :=
+  {| ob_seen := seen; ob_presented := presented; ob_responded := responded; ob_status := status; ob_hdr := h; ob_set := set;
+     ob_session := sess; ob_calls := calls |}.
+Definition mk_case (d : deployment) (q : request) (a : answers) (now : Z) (m : list (str * str * bool))
+    (rp : list (str * str * str * str)) (lo : list (str * str)) (op : list (str * ProxyCore.session)) (o : obs) : case :=
+  {| cs_d := d; cs_q := q; cs_a := a; cs_now := now; cs_match := m; cs_replace := rp; cs_lower := lo; cs_opens := op; cs_obs := o |}.
+
+(* ------------------------------------------------------------------------------------------ *)
+(* diagnostics (used when a replay is inspected by hand; not part of the judgement) *)
+Definition model_of (cs : case) : outcome :=
+  serve (tab_match (cs_match cs)) (tab_replace (cs_replace cs)) (CorrProxy.lower_tab (cs_lower cs))
+        (tab_opens (cs_opens cs)) (cs_d cs) (cs_q cs) (cs_a cs) (cs_now cs).
+Definition diag (cs : case) : list (N * bool) :=
+  let d := cs_d cs in let q := cs_q cs in let a := cs_a cs in let ob := cs_obs cs in
+  let o := model_of cs in
+  [ (1, match oc_backend o, oc_upstream o, ob_seen ob with
+        | None, _, [] => false
+        | Some bv, Some u, [b] => backend_mismatch d u (rq_host q) bv b
+        | _, _, _ => true end);
+    (2, match oc_client o with RespHeaders.NoResponse => ob_responded ob | RespHeaders.Resp st h => negb (ob_responded ob) end);
+    (3, match oc_client o with RespHeaders.Resp st h => status_comparable o a && negb (N.eqb st (ob_status ob)) | _ => false end);
+    (4, match oc_client o with
+        | RespHeaders.Resp st h =>
+            negb (forallb (fun k => list_eqb Corr_C18.hval_eqb (RespHeaders.hget k h)
+                                             (map RespHeaders.VStr (RespHeaders.hget k (ob_hdr ob)))) watched_resp)
+        | _ => false end);
+    (5, match oc_client o with
+        | RespHeaders.Resp st h =>
+            negb (loc_ok (oc_loc o) (RespHeaders.hget RespHeaders.k_location h) (RespHeaders.hget RespHeaders.k_location (ob_hdr ob)))
+        | _ => false end);
+    (6, match oc_client o with
+        | RespHeaders.Resp st h => negb (list_eqb Corr_C18.hval_eqb (RespHeaders.hget RespHeaders.k_set_cookie h) (ob_set ob))
+        | _ => false end);
+    (7, negb (CorrProxy.effect_close (oc_session o) (ob_session ob)));
+    (8, negb (list_eqb call_eqb (oc_calls o) (ob_calls ob))) ].
